@@ -6,7 +6,9 @@ pytezos.crypto.encoding (and the `base58` library) against the Lean mirror, plus
   (so wrong checksum / unknown prefix / wrong length / foreign binary prefix must raise);
 * every kind predicate accepts exactly the kinds it is named after.
 
-The real double-SHA-256 checksums are computed here and handed to the Lean driver with each line."""
+The Lean driver computes the double-SHA-256 checksum itself (`RealHash.cks`, executable SHA-256 of Core/HashSha2.lean):
+every compared output is the complete Base58Check text / payload, nothing is handed over by this harness.  A `cks` stream
+compares the checksum function alone with hashlib on byte strings of every length around the SHA-256 block boundaries."""
 import hashlib
 import traceback
 
@@ -42,11 +44,6 @@ def site(e):
     return f'{type(e).__name__}@{tb[-1].name}'
 
 
-def pairs(keys):
-    keys = [k for k in dict.fromkeys(keys)]
-    return ','.join(f'{hx(k)}:{sha256d4(k).hex()}' for k in keys) if keys else '-'
-
-
 def run(ctx):
     import base58
     from pytezos.crypto import encoding as enc
@@ -60,20 +57,17 @@ def run(ctx):
         'corruption stream: valid encodings with a checksum byte flipped, characters replaced/swapped/inserted/removed, '
         'trailing whitespace, neighbouring binary prefix with a valid checksum, and strings built as '
         '"human prefix + random digits" with the checksum repaired (right prefix and length, foreign binary prefix); '
-        'library stream: base58.b58encode/b58decode vs Lean on random byte strings / strings. '
+        'library stream: base58.b58encode/b58decode vs Lean on random byte strings / strings; '
+        'cks stream: first four bytes of SHA-256(SHA-256 x) of the Lean implementation vs hashlib for every length 0..130 and random longer inputs. '
         'non-trivial = the string passes the (length, human prefix) row search, i.e. acceptance is decided by the '
         'checksum / binary-prefix / payload-length validation')
     ctx.assumptions += [
-        'SHA-256 is not modelled: the checksum is an abstract 4-byte function in the theorems; the driver is fed the real checksums',
+        'SHA-256: abstract 4-byte checksum function in the general theorems; the driver and the `…_sha256` corollaries use the executable '
+        'Lean SHA-256 (Core/HashSha2.lean), tied to hashlib by this run (every compared string carries a checksum; `cks` stream) and to '
+        'published vectors by kernel-evaluated known-answer examples in Props/C09.lean; nothing is proved about SHA-256 itself',
         'base58 2.1.1 library: re-implemented in Lean (b58enc/b58dec, proved inverse), tied to the library by sampling only',
         'str/bytes coercions of _validate (scrub_input, str.encode) are outside the model: the harness passes bytes',
     ]
-
-    def keys_for_decode(s):
-        try:
-            return [base58.b58decode(s)[:-4]]
-        except ValueError:
-            return []
 
     def real_decode(s):
         try:
@@ -132,7 +126,7 @@ def run(ctx):
                         ctx.count('steered-into-foreign-prefix', f'{h.decode()}->{h2.decode()}')
         for v in payloads:
             real = real_encode(v, h)
-            add('encode', f'enc {hx(h)} {hx(v)} {pairs([r[2] + v for r in table if r[0] == h])}',
+            add('encode', f'enc {hx(h)} {hx(v)}',
                 {'op': 'encode', 'prefix': h.decode(), 'payload': v.hex()}, real)
             ctx.case({'op': 'encode', 'prefix': h.decode(), 'payload': v.hex()})
             ctx.count('encode-row', h.decode())
@@ -157,7 +151,7 @@ def run(ctx):
         # wrong payload length / unknown prefix must raise
         for v, pfx in ((bytes(n + 1), h), (bytes(max(n - 1, 0)), h), (rng.bytes_(n), h + b'x'), (rng.bytes_(n), b'')):
             real = real_encode(v, pfx)
-            add('encode', f'enc {hx(pfx)} {hx(v)} {pairs([r[2] + v for r in table if r[0] == pfx])}',
+            add('encode', f'enc {hx(pfx)} {hx(v)}',
                 {'op': 'encode', 'prefix': pfx.decode(), 'payload': v.hex()}, real)
             ctx.case({'op': 'encode-bad', 'prefix': pfx.decode(), 'len': len(v)}, nontrivial=False)
             if real.startswith('ok ') and not any(r[0] == pfx and r[3] == len(v) for r in table):
@@ -168,13 +162,13 @@ def run(ctx):
     preds = sorted(INTENDED)
     for (row, v, s) in valid:
         h = row[0]
-        add('decode', f'dec {hx(s)} {pairs(keys_for_decode(s))}', {'op': 'decode', 'string': s.decode('latin1')}, real_decode(s))
+        add('decode', f'dec {hx(s)}', {'op': 'decode', 'string': s.decode('latin1')}, real_decode(s))
     step = 1 if not quick else 3
     for (row, v, s) in valid[::step]:
         h = row[0]
         for name in preds:
             got = getattr(enc, name)(s)
-            add('validator', f'val {name} {hx(s)} {pairs(keys_for_decode(s))}', {'op': name, 'string': s.decode('latin1')}, 'true' if got else 'false')
+            add('validator', f'val {name} {hx(s)}', {'op': name, 'string': s.decode('latin1')}, 'true' if got else 'false')
             ctx.case({'op': name, 'string': s.decode('latin1')}, nontrivial=any(s.startswith(p) for p in INTENDED[name]))
             want = h in INTENDED[name]
             if got != want:
@@ -232,7 +226,7 @@ def run(ctx):
                 real = real_decode(t)
                 passes_search = any(len(t) == r[1] and t.startswith(r[0]) for r in table)
                 desc = {'op': 'decode', 'corruption': kind, 'from': s.decode('latin1'), 'string': t.decode('latin1')}
-                add('corrupt', f'dec {hx(t)} {pairs(keys_for_decode(t))}', desc, real)
+                add('corrupt', f'dec {hx(t)}', desc, real)
                 ctx.case(desc, nontrivial=passes_search)
                 ctx.count('corruption', kind)
                 ctx.count('corrupt-outcome', real.split(' ')[0] + ('' if real.startswith('ok') else ':' + real.split('@')[-1]))
@@ -257,7 +251,7 @@ def run(ctx):
                         if not any(t.startswith(pp) for pp in INTENDED[name]):
                             continue
                         got = getattr(enc, name)(t)
-                        add('validator', f'val {name} {hx(t)} {pairs(keys_for_decode(t))}', {'op': name, 'string': t.decode('latin1')}, 'true' if got else 'false')
+                        add('validator', f'val {name} {hx(t)}', {'op': name, 'string': t.decode('latin1')}, 'true' if got else 'false')
                         ctx.case({'op': name, 'string': t.decode('latin1')})
                         want = k is not None and k in INTENDED[name]
                         if got != want:
@@ -290,6 +284,12 @@ def run(ctx):
                 real = 'err ' + site(e)
             add('b58decode', f'b58d {hx(t)}', {'op': 'b58decode', 'string': t.decode('latin1')}, real)
             ctx.case({'op': 'b58decode', 'string': t.decode('latin1')}, nontrivial=False)
+
+    # ---- checksum stream: Lean double SHA-256 vs hashlib (padding boundaries at 55/56/63/64/119/120 bytes) --------
+    for ln in list(range(0, 131)) + [rng.randrange(131, 1200) for _ in range(20 if quick else 400)]:
+        for b in ([bytes(ln), rng.bytes_(ln)] if ln <= 130 else [rng.bytes_(ln)]):
+            add('cks', f'cks {hx(b)}', {'op': 'sha256d4', 'len': ln, 'bytes': b.hex() if ln <= 64 else hashlib.sha1(b).hexdigest()}, sha256d4(b).hex())
+            ctx.case({'op': 'sha256d4', 'len': ln, 'sha1': hashlib.sha1(b).hexdigest()}, nontrivial=False)
 
     model = ctx.model(lines)
     if model is not None:
